@@ -11,7 +11,7 @@ HYPOTHESES = []
 NOT_YET_PROVED = []
 ASSUMPTIONS = []
 nontrivial = nontrivial_default
-EXTRA_MODULES = {"Props.TieCodec": "PyEcc.Tie."}
+EXTRA_MODULES = {"Props.TieCodec": "PyEcc.Tie.", "Props.TieHashCodec": "PyEcc.Tie."}
 P = O.BLS_P
 
 
